@@ -137,6 +137,20 @@ def special_C10(seed, tier, model, deadline):
                {'op': 'update_settings', 'c': 0, 'settings': [(3, lim)]},
                {'op': 'recv', 'c': 0, 'data': wire.settings_frame(ack=True)}]
         nxt, live, unacked = 1, [], 0
+        rng2 = random.Random((seed * 31337 + k * 7 + 1) & 0xFFFFFFFF)
+        if rng2.random() < 0.3:
+            # recipe: a change and its reversal in flight together (the second value is the one in force), both
+            # acknowledged, then the peer opens as many streams as the limit in force allows
+            big = rng2.choice([2, 3, 5])
+            ops[3] = {'op': 'update_settings', 'c': 0, 'settings': [(3, big)]}
+            ops += [{'op': 'update_settings', 'c': 0, 'settings': [(3, rng2.choice([0, 1]))]},
+                    {'op': 'update_settings', 'c': 0, 'settings': [(3, big)]},
+                    {'op': 'recv', 'c': 0, 'data': wire.settings_frame(ack=True)},
+                    {'op': 'recv', 'c': 0, 'data': wire.settings_frame(ack=True)}]
+            for _ in range(big):
+                ops.append({'op': 'recv', 'c': 0, 'data': wire.headers_frames(nxt, blk(REQ), end_stream=False)})
+                nxt += 2
+            lim = big
         for _ in range(rng.randrange(6, 22)):
             r = rng.random()
             if r < 0.4:
@@ -988,10 +1002,26 @@ def _body_programs(seed, n):
             req = [(b':method', method), (b':scheme', b'https'), (b':path', b'/'), (b':authority', b'x')]
             if method == b'CONNECT' and rng.random() < 0.6:
                 req.append((b':protocol', b'websocket'))
-            ops.append({'op': 'send_headers', 'c': 0, 'sid': 1, 'headers': [(a, b, False) for a, b in req], 'es': rng.random() < 0.5})
+            rng2 = random.Random((seed * 7919 + k * 31 + 5) & 0xFFFFFFFF)
+            rng3 = random.Random((seed * 104729 + k * 17 + 3) & 0xFFFFFFFF)
+            if rng3.random() < 0.2:
+                # the target named by a host field instead of :authority
+                req = [(a, b) for a, b in req if a != b':authority'] + [(b'host', b'x')]
+            req_es = rng.random() < 0.5
+            if rng3.random() < 0.25:
+                # the request is ended by trailers
+                ops.append({'op': 'send_headers', 'c': 0, 'sid': 1, 'headers': [(a, b, False) for a, b in req], 'es': False})
+                ops.append({'op': 'send_headers', 'c': 0, 'sid': 1, 'headers': [(b'x-request-trailer', b'1', False)], 'es': True})
+            else:
+                ops.append({'op': 'send_headers', 'c': 0, 'sid': 1, 'headers': [(a, b, False) for a, b in req], 'es': req_es})
             if rng.random() < 0.2:
                 recv_info = wire.headers_frames(1, blk([(b':status', rng.choice([b'100', b'103', b'1xx']))]), end_stream=False)
                 ops.append({'op': 'recv', 'c': 0, 'data': recv_info})
+            elif rng2.random() < 0.25:
+                # an interim response with a content-length of its own: it says nothing about the final response's body
+                icl = rng2.choice([b'0', b'7', str(n_len + 2).encode(), str(n_len).encode()])
+                for _ in range(rng2.choice([1, 1, 2])):
+                    ops.append({'op': 'recv', 'c': 0, 'data': wire.headers_frames(1, blk([(b':status', rng2.choice([b'100', b'103'])), (b'content-length', icl)]))})
             status = rng.choice([b'200', b'200', b'204', b'304', b'404', b'2xx', b'abc', b'', b'\xff\xfe', b'20', b'2000', b'+200', b' 200'])
             first = [(b':status', status)] + extra
         else:
@@ -1035,10 +1065,53 @@ def special_C16(seed, tier, model, deadline):
     return _run_body('C16', oracle_C16, seed, tier, model, deadline, 300)
 
 
+def _settings_walk_programs(seed, n):
+    """a peer that changes its mind: for every setting (known, unknown, 8-bit aliases of known ones) a walk of two to
+    five values over several SETTINGS frames — up, down, back, the same again, the boundaries and just past them —
+    alone or mixed with other settings in the frame, with streams open so that window and frame-size changes land"""
+    import random
+    import wire
+    blk = wire.hpack_literal_block
+    REQB = blk([(b':method', b'GET'), (b':scheme', b'https'), (b':path', b'/'), (b':authority', b'x')])
+    VALUES = {1: [0, 1, 4096, 65536, 2**32 - 1], 2: [0, 1, 2], 3: [0, 1, 100, 2**32 - 1], 4: [0, 1, 65535, 2**31 - 1, 2**31],
+              5: [16383, 16384, 16385, 2**24 - 1, 2**24], 6: [0, 1, 100, 2**32 - 1], 8: [0, 1, 2],
+              9: [0, 7, 2**32 - 1], 0x102: [0, 1, 5], 0x304: [0, 2**31], 0xFF05: [0, 16384], 0x1008: [0, 1, 2], 0xFFFF: [0, 2**32 - 1]}
+    for k in range(n):
+        rng = random.Random((seed * 86243 + k) & 0xFFFFFFFF)
+        client = rng.random() < 0.5
+        ops = [{'op': 'new', 'c': 0, 'client': client, 'vo': 1, 'no': 1, 'vi': 1, 'ni': 1, 'enc': rng.choice([None, 'utf-8'])},
+               {'op': 'initiate_connection', 'c': 0},
+               {'op': 'recv', 'c': 0, 'data': (b'' if client else wire.PREFACE) + wire.settings_frame([]) + wire.settings_frame(ack=True)}]
+        if client:
+            ops.append({'op': 'send_headers', 'c': 0, 'sid': 1, 'headers': [(b':method', b'GET', False), (b':scheme', b'https', False), (b':path', b'/', False), (b':authority', b'x', False)], 'es': False})
+        else:
+            ops.append({'op': 'recv', 'c': 0, 'data': wire.headers_frames(1, REQB)})
+        key = rng.choice(sorted(VALUES))
+        walk = [rng.choice(VALUES[key]) for _ in range(rng.randrange(2, 6))]
+        if rng.random() < 0.5:
+            v = VALUES[key]
+            walk = [v[min(1, len(v) - 1)], v[0]] + walk[:1]          # something, then back to the smallest value
+        for v in walk:
+            items = [(key, v)]
+            if rng.random() < 0.3:
+                k2 = rng.choice(sorted(VALUES))
+                items.insert(rng.randrange(2), (k2, rng.choice(VALUES[k2])))
+            ops.append({'op': 'recv', 'c': 0, 'data': wire.settings_frame(items)})
+            if rng.random() < 0.3:
+                ops.append({'op': 'data_to_send', 'c': 0, 'amount': None})
+        yield 'walk-%d' % k, ops
+
+
 def special_C17(seed, tier, model, deadline):
-    """odd status / method / content-length values around message bodies (see _body_programs) under oracle_C17"""
+    """odd status / method / content-length values around message bodies (see _body_programs) and walks of SETTINGS values
+    (see _settings_walk_programs) under oracle_C17"""
     from oracles import oracle_C17
-    return _run_body('C17', oracle_C17, seed, tier, model, deadline, 300)
+    res = _run_body('C17', oracle_C17, seed, tier, model, deadline, 300)
+    more = _run_directed('C17', oracle_C17, _settings_walk_programs, 'settings_walk')(seed, tier, model, deadline, 250)
+    res['failures'] += more['failures']
+    res['mismatches'] += more['mismatches']
+    res['coverage'].update(more['coverage'])
+    return res
 
 
 def special_C11(seed, tier, model, deadline):
@@ -1170,7 +1243,7 @@ def _reset_race_programs(seed, n):
                {'op': 'recv', 'c': 0, 'data': (b'' if client else wire.PREFACE) + wire.settings_frame([]) + wire.settings_frame(ack=True)}]
         if limit is not None:
             ops += [{'op': 'update_settings', 'c': 0, 'settings': [(3, limit)]}, {'op': 'recv', 'c': 0, 'data': wire.settings_frame(ack=True)}]
-        shape = rng.choice(['plain', 'plain', 'length', 'pushed'] if client else ['plain', 'plain', 'length'])
+        shape = rng.choice(['plain', 'plain', 'length', 'pushed', 'push-on-reset'] if client else ['plain', 'plain', 'length'])
         CL = [(b'content-length', b'10', False)]
         if client:
             victim = 3
@@ -1187,6 +1260,12 @@ def _reset_race_programs(seed, n):
                 ops.append({'op': 'recv', 'c': 0, 'data': wire.push_promise_frames(1, victim, blk([(b':method', b'GET'), (b':scheme', b'https'), (b':path', b'/v'), (b':authority', b'x')]))})
                 racing = [wire.headers_frames(victim, RESP), wire.data_frame(victim, b'late' * rng.randrange(0, 50), end_stream=rng.random() < 0.5),
                           wire.rst_stream(victim, 0)]
+            elif shape == 'push-on-reset':
+                # the peer promises streams on the request stream we are about to reset; its next header block uses what the
+                # promise put into the compression context
+                q = 2 + 2 * (limit or 0)
+                racing = [wire.push_promise_frames(victim, q, blk([(b':method', b'GET'), (b':scheme', b'https'), (b':path', b'/q'), (b':authority', b'x')])),
+                          wire.push_promise_frames(victim, q + 2, blk([(b':method', b'GET'), (b':scheme', b'https'), (b':path', b'/r'), (b':authority', b'x')]))]
             elif shape == 'length':
                 # the response announced a length and part of the body came before the reset: the rest and the trailers race it
                 ops.append({'op': 'recv', 'c': 0, 'data': wire.headers_frames(victim, blk([(b':status', b'200'), (b'content-length', b'10')]))})
@@ -1239,3 +1318,494 @@ def special_C20(seed, tier, model, deadline):
         progs += 1
         nops += len(ops)
     return {'failures': fails, 'mismatches': mism, 'coverage': {'reset_race_programs': progs, 'reset_race_ops': nops}}
+
+
+# ---------------------------------------------------------------------------
+# C19: a closed connection stays quiet
+# ---------------------------------------------------------------------------
+def _closed_conn_programs(seed, n):
+    """streams in every final situation (open, ended, reset by us, reset by the peer; still in the table or cleaned out
+    of it), then the connection is closed by one of the three routes (close_connection, a received GOAWAY, a connection
+    error), then frames of every type arrive for every kind of stream id (0, live, closed, forgotten, never used) —
+    naked CONTINUATION included — and every public call is tried."""
+    import random
+    import wire
+    blk = wire.hpack_literal_block
+    REQ = [(b':method', b'GET', False), (b':scheme', b'https', False), (b':path', b'/', False), (b':authority', b'x', False)]
+    REQB = blk([(h[0], h[1]) for h in REQ])
+    RESP = blk([(b':status', b'200')])
+    for k in range(n):
+        rng = random.Random((seed * 48611 + k) & 0xFFFFFFFF)
+        client = rng.random() < 0.5
+        ops = [{'op': 'new', 'c': 0, 'client': client, 'vo': 1, 'no': 1, 'vi': 1, 'ni': 1, 'enc': None},
+               {'op': 'initiate_connection', 'c': 0},
+               {'op': 'recv', 'c': 0, 'data': (b'' if client else wire.PREFACE) + wire.settings_frame([]) + wire.settings_frame(ack=True)}]
+        sids = [1, 3, 5, 7]
+        fate = {}
+        for sid in sids:
+            if client:
+                ops.append({'op': 'send_headers', 'c': 0, 'sid': sid, 'headers': REQ, 'es': rng.random() < 0.5})
+            else:
+                ops.append({'op': 'recv', 'c': 0, 'data': wire.headers_frames(sid, REQB, end_stream=rng.random() < 0.5)})
+            fate[sid] = rng.choice(['open', 'reset-local', 'reset-local', 'reset-peer', 'reset-peer', 'ended'])
+        for sid in sids:
+            f = fate[sid]
+            if f == 'reset-local':
+                ops.append({'op': 'reset_stream', 'c': 0, 'sid': sid, 'code': rng.choice([0, 8])})
+            elif f == 'reset-peer':
+                ops.append({'op': 'recv', 'c': 0, 'data': wire.rst_stream(sid, rng.choice([0, 8]))})
+            elif f == 'ended':
+                if client:
+                    ops.append({'op': 'recv', 'c': 0, 'data': wire.headers_frames(sid, RESP, end_stream=True)})
+                    ops.append({'op': 'end_stream', 'c': 0, 'sid': sid})
+                else:
+                    ops.append({'op': 'send_headers', 'c': 0, 'sid': sid, 'headers': [(b':status', b'200', False)], 'es': True})
+                    ops.append({'op': 'recv', 'c': 0, 'data': wire.data_frame(sid, b'', end_stream=True)})
+        if rng.random() < 0.7:
+            # closed streams leave the table when the open streams are counted
+            ops.append({'op': 'q', 'c': 0, 'what': rng.choice(['open_out', 'open_in'])})
+        route = rng.choice(['close', 'goaway', 'error'])
+        if route == 'close':
+            ops.append({'op': 'close_connection', 'c': 0, 'code': rng.choice([0, 1, 2])})
+        elif route == 'goaway':
+            ops.append({'op': 'recv', 'c': 0, 'data': wire.goaway(rng.choice([0, 7]), rng.choice([0, 1]))})
+        else:
+            ops.append({'op': 'recv', 'c': 0, 'data': rng.choice([wire.window_update(0, 0x7FFFFFFF), wire.frame(wire.PING, 0, 1, b'12345678'),
+                                                                 wire.frame(wire.SETTINGS, 0, 0, b'abc')])})
+        if rng.random() < 0.5:
+            ops.append({'op': 'data_to_send', 'c': 0, 'amount': None})
+        targets = [0] + sids + [9, 2, 4, 1001]
+        for _ in range(rng.randrange(4, 12)):
+            sid = rng.choice(targets)
+            kind = rng.choice(['continuation', 'continuation', 'data', 'headers', 'rst', 'window', 'priority', 'ping', 'settings', 'push', 'altsvc', 'goaway', 'call'])
+            if kind == 'continuation':
+                d = wire.frame(wire.CONTINUATION, rng.choice([0, 4]), sid, rng.choice([b'', RESP]))
+            elif kind == 'data':
+                d = wire.data_frame(sid, b'x' * rng.choice([0, 1, 10]), end_stream=rng.random() < 0.5) if sid else wire.frame(wire.DATA, 0, 0, b'x')
+            elif kind == 'headers':
+                d = wire.headers_frames(sid or 1, rng.choice([RESP, REQB]), end_stream=rng.random() < 0.5)
+            elif kind == 'rst':
+                d = wire.rst_stream(sid or 1, 0)
+            elif kind == 'window':
+                d = wire.window_update(sid, rng.choice([1, 100]))
+            elif kind == 'priority':
+                d = wire.priority(sid or 1, 0, 16)
+            elif kind == 'ping':
+                d = wire.ping(b'abcdefgh', ack=rng.random() < 0.3)
+            elif kind == 'settings':
+                d = wire.settings_frame([(4, 100)]) if rng.random() < 0.7 else wire.settings_frame(ack=True)
+            elif kind == 'push':
+                d = wire.push_promise_frames(sid or 1, rng.choice([2, 4, 100]), REQB)
+            elif kind == 'altsvc':
+                d = wire.altsvc(sid, b'' if sid else b'example.com', b'h2=":443"')
+            elif kind == 'goaway':
+                d = wire.goaway(0, 0)
+            else:
+                c = rng.choice(['send_data', 'end_stream', 'reset_stream', 'ping', 'incr_window', 'send_headers', 'ack_data', 'update_settings', 'close_connection'])
+                s1 = sid or 1
+                call = {'send_data': {'op': 'send_data', 'c': 0, 'sid': s1, 'data': b'x', 'es': False, 'pad': None},
+                        'end_stream': {'op': 'end_stream', 'c': 0, 'sid': s1},
+                        'reset_stream': {'op': 'reset_stream', 'c': 0, 'sid': s1, 'code': 0},
+                        'ping': {'op': 'ping', 'c': 0, 'data': b'12345678'},
+                        'incr_window': {'op': 'incr_window', 'c': 0, 'incr': 10, 'sid': sid or None},
+                        'send_headers': {'op': 'send_headers', 'c': 0, 'sid': s1, 'headers': REQ if client else [(b':status', b'200', False)], 'es': False},
+                        'ack_data': {'op': 'ack_data', 'c': 0, 'size': 1, 'sid': s1},
+                        'update_settings': {'op': 'update_settings', 'c': 0, 'settings': [(3, 5)]},
+                        'close_connection': {'op': 'close_connection', 'c': 0, 'code': 0}}[c]
+                ops.append(call)
+                continue
+            ops.append({'op': 'recv', 'c': 0, 'data': d})
+        yield 'closed-%d' % k, ops
+
+
+def _run_directed(pid, oracle, programs, cov):
+    def go(seed, tier, model, deadline, quick_n, thorough_n=4000):
+        import time
+        n = {'quick': quick_n, 'thorough': thorough_n}.get(tier, quick_n)
+        fails, mism, progs, nops = [], [], 0, 0
+        for key, ops in programs(seed, n):
+            if time.time() > deadline:
+                break
+            _judge(pid, ops, key, seed, model, oracle, fails, mism)
+            progs += 1
+            nops += len(ops)
+        return {'failures': fails, 'mismatches': mism, 'coverage': {cov + '_programs': progs, cov + '_ops': nops}}
+    return go
+
+
+def special_C19(seed, tier, model, deadline):
+    """directed histories around a closed connection (see _closed_conn_programs) judged by oracle_C19"""
+    from oracles import oracle_C19
+    return _run_directed('C19', oracle_C19, _closed_conn_programs, 'closed_conn')(seed, tier, model, deadline, 250)
+
+
+# ---------------------------------------------------------------------------
+# C05: DATA the library acknowledges on the application's behalf
+# ---------------------------------------------------------------------------
+def _auto_ack_programs(seed, n):
+    """DATA for streams that are closed, reset or forgotten (the library credits the connection window itself): frames
+    with and without padding, with empty payloads (padding only), in amounts that use up the whole connection window;
+    every DataReceived the application does get is acknowledged at once"""
+    import random
+    import wire
+    blk = wire.hpack_literal_block
+    REQ = [(b':method', b'POST', False), (b':scheme', b'https', False), (b':path', b'/', False), (b':authority', b'x', False)]
+    REQB = blk([(h[0], h[1]) for h in REQ])
+    RESP = blk([(b':status', b'200')])
+    for k in range(n):
+        rng = random.Random((seed * 92821 + k) & 0xFFFFFFFF)
+        client = rng.random() < 0.5
+        ops = [{'op': 'new', 'c': 0, 'client': client, 'vo': 1, 'no': 1, 'vi': 1, 'ni': 1, 'enc': None},
+               {'op': 'initiate_connection', 'c': 0},
+               {'op': 'recv', 'c': 0, 'data': (b'' if client else wire.PREFACE) + wire.settings_frame([]) + wire.settings_frame(ack=True)}]
+        if client:
+            ops.append({'op': 'send_headers', 'c': 0, 'sid': 1, 'headers': REQ, 'es': False})
+            ops.append({'op': 'send_headers', 'c': 0, 'sid': 3, 'headers': REQ, 'es': False})
+            ops.append({'op': 'recv', 'c': 0, 'data': wire.headers_frames(1, RESP)})
+        else:
+            ops.append({'op': 'recv', 'c': 0, 'data': wire.headers_frames(1, REQB)})
+            ops.append({'op': 'recv', 'c': 0, 'data': wire.headers_frames(3, REQB)})
+        how = rng.choice(['reset-local', 'reset-local', 'reset-peer', 'forgotten'])
+        if how == 'reset-peer':
+            ops.append({'op': 'recv', 'c': 0, 'data': wire.rst_stream(1, 0)})
+        else:
+            ops.append({'op': 'reset_stream', 'c': 0, 'sid': 1, 'code': 0})
+        if how == 'forgotten':
+            ops.append({'op': 'q', 'c': 0, 'what': 'open_in'})
+        shape = rng.choice(['padding-only', 'padding-only', 'padded', 'plain', 'mixed'])
+        budget = 65535
+        frames = []
+        while budget > 0 and len(frames) < 400:
+            if shape == 'padding-only' or (shape == 'mixed' and rng.random() < 0.5):
+                pad = min(255, budget - 1)
+                frames.append(wire.data_frame(1, b'', pad=pad))
+                budget -= pad + 1
+            elif shape == 'padded':
+                pad = min(rng.choice([0, 7, 255]), max(0, budget - 2))
+                body = min(rng.choice([1, 100, 1000]), budget - pad - 1)
+                frames.append(wire.data_frame(1, b'p' * max(0, body), pad=pad))
+                budget -= pad + 1 + max(0, body)
+            else:
+                body = min(rng.choice([1, 1000, 16384]), budget)
+                frames.append(wire.data_frame(1, b'd' * body))
+                budget -= body
+            if rng.random() < 0.02:
+                break
+        per = rng.choice([1, 8, 64, 1000])
+        for j in range(0, len(frames), per):
+            ops.append({'op': 'recv', 'c': 0, 'data': b''.join(frames[j:j + per])})
+        # the window must be open again for the stream that is still alive
+        ops.append({'op': 'recv', 'c': 0, 'data': wire.data_frame(3, b'live')})
+        ops.append({'op': 'ack_data', 'c': 0, 'size': 4, 'sid': 3})
+        yield 'autoack-%d' % k, ops
+
+
+def special_C05(seed, tier, model, deadline):
+    """DATA on closed streams up to the whole connection window (see _auto_ack_programs) under oracle_C05"""
+    from oracles import oracle_C05
+    return _run_directed('C05', oracle_C05, _auto_ack_programs, 'auto_ack')(seed, tier, model, deadline, 60, 1500)
+
+
+# ---------------------------------------------------------------------------
+# C08: refused header calls must leave the message grammar where it was
+# ---------------------------------------------------------------------------
+def _refused_headers_programs(seed, n):
+    """a header call that fails (ill-typed tuple, a header block the outbound validation refuses, trailers without
+    END_STREAM) on request, response, pushed and upgraded streams, followed by the sends that are only legal if the
+    failed call had gone through"""
+    import random
+    import wire
+    blk = wire.hpack_literal_block
+    REQ = [(b':method', b'GET', False), (b':scheme', b'https', False), (b':path', b'/', False), (b':authority', b'x', False)]
+    REQB = blk([(h[0], h[1]) for h in REQ])
+    OKH = [(b':status', b'200', False)]
+    for k in range(n):
+        rng = random.Random((seed * 15485863 + k) & 0xFFFFFFFF)
+        client = rng.random() < 0.35
+        ops = [{'op': 'new', 'c': 0, 'client': client, 'vo': 1, 'no': 1, 'vi': 1, 'ni': 1, 'enc': None},
+               {'op': 'initiate_connection', 'c': 0},
+               {'op': 'recv', 'c': 0, 'data': (b'' if client else wire.PREFACE) + wire.settings_frame([]) + wire.settings_frame(ack=True)}]
+        bad = rng.choice([
+            [(b':status', '200', False)],                              # bytes name, text value
+            [(':status', b'200', False)],
+            [(b':status', b'200', False), ('x', b'y', False)],
+            [(b':status', b'200', False), (b'x', 'y', False)],
+            [(b'x-no-status', b'1', False)],                           # refused by the outbound validation
+            [(b':status', b'200', False), (b'Connection', b'close', False)],
+            [(b':status', b'200', False), (b':status', b'200', False)],
+            [(b':status', b'200', False), (b'content-length', 4, False)],      # a value that is not a string at all:
+            [(b':status', b'200', False), (b'x', None, False)],                # it fails late, while the block is built
+            [(':status', '200', False), ('content-length', 4, False)],
+            [(b':status', b'200', False), (b'content-length', 4, False)],
+        ])
+        if client and rng.random() < 0.4:
+            # a request that is complete; then the peer's frames on it (response headers, a promise, DATA, a window update);
+            # then whatever the application may try to send on it
+            ops.append({'op': 'send_headers', 'c': 0, 'sid': 1, 'headers': REQ, 'es': True})
+            for _ in range(rng.randrange(1, 4)):
+                ops.append({'op': 'recv', 'c': 0, 'data': rng.choice([
+                    wire.push_promise_frames(1, rng.choice([2, 4]), REQB), wire.headers_frames(1, blk([(b':status', b'200')])),
+                    wire.data_frame(1, b'abc'), wire.window_update(1, 10), wire.headers_frames(1, blk([(b':status', b'103')]))])})
+            for _ in range(rng.randrange(1, 4)):
+                ops.append(rng.choice([{'op': 'send_data', 'c': 0, 'sid': 1, 'data': b'more', 'es': rng.random() < 0.5, 'pad': None},
+                                       {'op': 'end_stream', 'c': 0, 'sid': 1},
+                                       {'op': 'send_headers', 'c': 0, 'sid': 1, 'headers': [(b'x-trailer', b'1', False)], 'es': True}]))
+            yield 'after-end-%d' % k, ops
+            continue
+        if client:
+            bad = rng.choice([[(b':method', 'GET', False)] + REQ[1:], [(':method', b'GET', False)] + REQ[1:], REQ[1:], REQ + [(b'te', b'gzip', False)]])
+            target = 1
+            follow_headers = REQ
+        else:
+            ops.append({'op': 'recv', 'c': 0, 'data': wire.headers_frames(1, REQB, end_stream=rng.random() < 0.5)})
+            target = 1
+            if rng.random() < 0.6:
+                ops.append({'op': 'push_stream', 'c': 0, 'sid': 1, 'promised': 2, 'headers': REQ})
+                target = 2
+            follow_headers = OKH
+        ops.append({'op': 'send_headers', 'c': 0, 'sid': target, 'headers': bad, 'es': rng.random() < 0.3})
+        for _ in range(rng.randrange(1, 5)):
+            what = rng.choice(['data', 'data', 'end', 'trailers', 'headers', 'bad-again'])
+            if what == 'data':
+                ops.append({'op': 'send_data', 'c': 0, 'sid': target, 'data': b'body', 'es': rng.random() < 0.4, 'pad': None})
+            elif what == 'end':
+                ops.append({'op': 'end_stream', 'c': 0, 'sid': target})
+            elif what == 'trailers':
+                ops.append({'op': 'send_headers', 'c': 0, 'sid': target, 'headers': [(b'x-trailer', b'1', False)], 'es': True})
+            elif what == 'headers':
+                ops.append({'op': 'send_headers', 'c': 0, 'sid': target, 'headers': follow_headers, 'es': rng.random() < 0.3})
+            else:
+                ops.append({'op': 'send_headers', 'c': 0, 'sid': target, 'headers': bad, 'es': False})
+        yield 'refused-%d' % k, ops
+
+
+def special_C08(seed, tier, model, deadline):
+    """failed header calls followed by sends (see _refused_headers_programs) under oracle_C08"""
+    from oracles import oracle_C08
+    return _run_directed('C08', oracle_C08, _refused_headers_programs, 'refused_headers')(seed, tier, model, deadline, 300)
+
+
+# ---------------------------------------------------------------------------
+# C26: many PINGs between two drains of the output buffer
+# ---------------------------------------------------------------------------
+def _ping_flood_programs(seed, n):
+    """1 … 600 PING frames (distinct payloads, some of them ACKs, other frames in between) delivered in one or several
+    receive_data calls, with the output buffer drained completely, partly or not at all in between"""
+    import random
+    import struct
+    import wire
+    for k in range(n):
+        rng = random.Random((seed * 32452843 + k) & 0xFFFFFFFF)
+        client = rng.random() < 0.5
+        ops = [{'op': 'new', 'c': 0, 'client': client, 'vo': 1, 'no': 1, 'vi': 1, 'ni': 1, 'enc': None},
+               {'op': 'initiate_connection', 'c': 0},
+               {'op': 'recv', 'c': 0, 'data': (b'' if client else wire.PREFACE) + wire.settings_frame([]) + wire.settings_frame(ack=True)}]
+        if rng.random() < 0.5:
+            ops.append({'op': 'data_to_send', 'c': 0, 'amount': None})
+        total = rng.choice([1, 5, 63, 64, 65, 66, 100, 129, 300, 600])
+        per = rng.choice([1, 7, 64, 65, 1000])
+        drain = rng.choice(['never', 'never', 'partly', 'fully-sometimes'])
+        buf = []
+        for j in range(total):
+            buf.append(wire.ping(struct.pack('>II', k & 0xFFFFFFFF, j), ack=rng.random() < 0.05))
+            if rng.random() < 0.05:
+                buf.append(wire.window_update(0, 1))
+            if len(buf) >= per or j == total - 1:
+                ops.append({'op': 'recv', 'c': 0, 'data': b''.join(buf)})
+                buf = []
+                if drain == 'partly':
+                    ops.append({'op': 'data_to_send', 'c': 0, 'amount': rng.choice([1, 17, 100])})
+                elif drain == 'fully-sometimes' and rng.random() < 0.3:
+                    ops.append({'op': 'data_to_send', 'c': 0, 'amount': None})
+        ops.append({'op': 'ping', 'c': 0, 'data': b'\x00' * 8})
+        yield 'pings-%d' % k, ops
+
+
+def special_C26(seed, tier, model, deadline):
+    """PING floods (see _ping_flood_programs) under oracle_C26"""
+    from oracles import oracle_C26
+    return _run_directed('C26', oracle_C26, _ping_flood_programs, 'ping_flood')(seed, tier, model, deadline, 80, 1500)
+
+
+# ---------------------------------------------------------------------------
+# C27: retained state after the limits were hit
+# ---------------------------------------------------------------------------
+def _after_limit_programs(seed, n):
+    """a header block that runs past CONTINUATION_BACKLOG (HEADERS or PUSH_PROMISE + 63 … 70 CONTINUATION frames, empty or
+    not), then — the connection error notwithstanding — more CONTINUATION frames, other frames and calls; and long runs
+    of streams opened and reset so that the memory of closed streams reaches its cap"""
+    import random
+    import wire
+    blk = wire.hpack_literal_block
+    REQB = blk([(b':method', b'GET'), (b':scheme', b'https'), (b':path', b'/'), (b':authority', b'x')])
+    for k in range(n):
+        rng = random.Random((seed * 49979687 + k) & 0xFFFFFFFF)
+        client = rng.random() < 0.4
+        ops = [{'op': 'new', 'c': 0, 'client': client, 'vo': 1, 'no': 1, 'vi': 1, 'ni': 1, 'enc': None},
+               {'op': 'initiate_connection', 'c': 0},
+               {'op': 'recv', 'c': 0, 'data': (b'' if client else wire.PREFACE) + wire.settings_frame([]) + wire.settings_frame(ack=True)}]
+        if rng.random() < 0.75:
+            sid = 1
+            if client:
+                ops.append({'op': 'send_headers', 'c': 0, 'sid': 1, 'headers': [(b':method', b'GET', False), (b':scheme', b'https', False), (b':path', b'/', False), (b':authority', b'x', False)], 'es': True})
+                first = wire.push_promise_frames(1, 2, REQB, max_frag=3)[:9 + 4 + 3] if rng.random() < 0.5 else None
+                if first is None:
+                    first = wire.frame(wire.HEADERS, 0, 1, blk([(b':status', b'200')]))
+                else:
+                    first = wire.frame(wire.PUSH_PROMISE, 0, 1, b'\x00\x00\x00\x02' + REQB[:3])
+            else:
+                first = wire.frame(wire.HEADERS, rng.choice([0, 1]), 1, REQB[:5])
+            total = rng.choice([62, 63, 64, 65, 66, 70, 130])
+            per = rng.choice([1, 1, 7, 1000])
+            frames = [first] + [wire.frame(wire.CONTINUATION, 0, sid, rng.choice([b'', b'x', b'y' * 100])) for _ in range(total)]
+            for j in range(0, len(frames), per):
+                ops.append({'op': 'recv', 'c': 0, 'data': b''.join(frames[j:j + per])})
+            # after the error: the peer keeps talking, the application keeps listening
+            for _ in range(rng.randrange(0, 40)):
+                kind = rng.choice(['cont', 'cont', 'cont', 'end', 'other', 'call'])
+                if kind == 'cont':
+                    ops.append({'op': 'recv', 'c': 0, 'data': wire.frame(wire.CONTINUATION, 0, sid, b'z' * rng.choice([0, 1, 50]))})
+                elif kind == 'end':
+                    ops.append({'op': 'recv', 'c': 0, 'data': wire.frame(wire.CONTINUATION, 4, sid, b'')})
+                elif kind == 'other':
+                    ops.append({'op': 'recv', 'c': 0, 'data': rng.choice([wire.ping(b'12345678'), wire.window_update(0, 1), wire.settings_frame([])])})
+                else:
+                    ops.append(rng.choice([{'op': 'data_to_send', 'c': 0, 'amount': None}, {'op': 'ping', 'c': 0, 'data': b'12345678'},
+                                           {'op': 'q', 'c': 0, 'what': 'open_in'}]))
+        else:
+            # many streams opened by the peer and reset (by either side), interleaved with the cleanup
+            if client:
+                continue
+            m = rng.choice([50, 101, 120, 250])
+            for j in range(m):
+                sid = 1 + 2 * j
+                ops.append({'op': 'recv', 'c': 0, 'data': wire.headers_frames(sid, REQB, end_stream=rng.random() < 0.5)})
+                if rng.random() < 0.5:
+                    ops.append({'op': 'recv', 'c': 0, 'data': wire.rst_stream(sid, 8)})
+                else:
+                    ops.append({'op': 'reset_stream', 'c': 0, 'sid': sid, 'code': 0})
+                if rng.random() < 0.1:
+                    ops.append({'op': 'data_to_send', 'c': 0, 'amount': None})
+        yield 'limit-%d' % k, ops
+
+
+def special_C27(seed, tier, model, deadline):
+    """histories that run into the two caps and go on (see _after_limit_programs) under oracle_C27"""
+    from oracles import oracle_C27
+    return _run_directed('C27', oracle_C27, _after_limit_programs, 'after_limit')(seed, tier, model, deadline, 60, 1200)
+
+
+# ---------------------------------------------------------------------------
+# C09: stream ids that are not idle any more
+# ---------------------------------------------------------------------------
+def _id_reuse_programs(seed, n):
+    """streams of both directions in every final situation (open, ended, reset by either side; still in the table or
+    cleaned out of it), then the peer's HEADERS and PUSH_PROMISE frames that use, or promise, ids at and below the
+    high-water marks: closed ones, live ones, skipped ones, ids of the wrong parity, just above the mark"""
+    import random
+    import wire
+    blk = wire.hpack_literal_block
+    REQ = [(b':method', b'GET', False), (b':scheme', b'https', False), (b':path', b'/', False), (b':authority', b'x', False)]
+    REQB = blk([(h[0], h[1]) for h in REQ])
+    RESP = blk([(b':status', b'200')])
+    for k in range(n):
+        rng = random.Random((seed * 67867967 + k) & 0xFFFFFFFF)
+        client = rng.random() < 0.7
+        ops = [{'op': 'new', 'c': 0, 'client': client, 'vo': 1, 'no': 1, 'vi': 1, 'ni': 1, 'enc': None},
+               {'op': 'initiate_connection', 'c': 0},
+               {'op': 'recv', 'c': 0, 'data': (b'' if client else wire.PREFACE) + wire.settings_frame([]) + wire.settings_frame(ack=True)}]
+        mine, theirs = [], []
+        if client:
+            for sid in (1, 3, 5):
+                ops.append({'op': 'send_headers', 'c': 0, 'sid': sid, 'headers': REQ, 'es': rng.random() < 0.5})
+                mine.append(sid)
+            # the peer promises 2, 4, (skips 6), 8 on stream 1
+            for p in (2, 4, 8):
+                ops.append({'op': 'recv', 'c': 0, 'data': wire.push_promise_frames(1, p, REQB)})
+                theirs.append(p)
+        else:
+            for sid in (1, 3, 7):
+                ops.append({'op': 'recv', 'c': 0, 'data': wire.headers_frames(sid, REQB, end_stream=rng.random() < 0.5)})
+                theirs.append(sid)
+            for p in (2, 4):
+                ops.append({'op': 'push_stream', 'c': 0, 'sid': 1, 'promised': p, 'headers': REQ})
+                mine.append(p)
+        for sid in theirs + mine[1:]:
+            fate = rng.choice(['open', 'reset-local', 'reset-peer', 'ended', 'ended'])
+            if fate == 'reset-local':
+                ops.append({'op': 'reset_stream', 'c': 0, 'sid': sid, 'code': rng.choice([0, 8])})
+            elif fate == 'reset-peer':
+                ops.append({'op': 'recv', 'c': 0, 'data': wire.rst_stream(sid, 8)})
+            elif fate == 'ended':
+                if client and sid in theirs:
+                    ops.append({'op': 'recv', 'c': 0, 'data': wire.headers_frames(sid, RESP, end_stream=True)})
+                elif client:
+                    ops.append({'op': 'recv', 'c': 0, 'data': wire.headers_frames(sid, RESP, end_stream=True)})
+                    ops.append({'op': 'end_stream', 'c': 0, 'sid': sid})
+                elif sid in theirs:
+                    ops.append({'op': 'send_headers', 'c': 0, 'sid': sid, 'headers': [(b':status', b'200', False)], 'es': True})
+                    ops.append({'op': 'recv', 'c': 0, 'data': wire.data_frame(sid, b'', end_stream=True)})
+                else:
+                    ops.append({'op': 'send_headers', 'c': 0, 'sid': sid, 'headers': [(b':status', b'200', False)], 'es': True})
+        if rng.random() < 0.6:
+            ops.append({'op': 'q', 'c': 0, 'what': rng.choice(['open_out', 'open_in'])})
+        pool = sorted(set(theirs + mine + [6, 9, 10, 11, 12, 0, 100]))
+        for _ in range(rng.randrange(1, 4)):
+            target = rng.choice(pool)
+            if client and rng.random() < 0.6:
+                parent = 1
+                ops.append({'op': 'recv', 'c': 0, 'data': wire.push_promise_frames(parent, target, REQB)})
+            else:
+                ops.append({'op': 'recv', 'c': 0, 'data': wire.headers_frames(target or 1, RESP if client else REQB, end_stream=rng.random() < 0.5)})
+            ops.append({'op': 'q', 'c': 0, 'what': 'next_stream_id'})
+        yield 'ids-%d' % k, ops
+
+
+def special_C09(seed, tier, model, deadline):
+    """ids that are not idle any more, used and promised again (see _id_reuse_programs) under oracle_C09"""
+    from oracles import oracle_C09
+    return _run_directed('C09', oracle_C09, _id_reuse_programs, 'id_reuse')(seed, tier, model, deadline, 300)
+
+
+# ---------------------------------------------------------------------------
+# C07: what the peer may do with a stream id a refused call left behind
+# ---------------------------------------------------------------------------
+def _orphan_id_programs(seed, n):
+    """a client call that would open a stream is refused (by validation, by a value that is not a string, by the limit),
+    the application carries on, and the peer sends HEADERS / DATA / PUSH_PROMISE on the id that was not used — with
+    request-shaped and response-shaped blocks, inbound validation on and off"""
+    import random
+    import wire
+    blk = wire.hpack_literal_block
+    REQ = [(b':method', b'GET', False), (b':scheme', b'https', False), (b':path', b'/', False), (b':authority', b'x', False)]
+    REQB = blk([(h[0], h[1]) for h in REQ])
+    RESP = blk([(b':status', b'200')])
+    for k in range(n):
+        rng = random.Random((seed * 217645199 + k) & 0xFFFFFFFF)
+        ops = [{'op': 'new', 'c': 0, 'client': True, 'vo': 1, 'no': 1, 'vi': rng.choice([1, 1, 0]), 'ni': 1, 'enc': None},
+               {'op': 'initiate_connection', 'c': 0},
+               {'op': 'recv', 'c': 0, 'data': wire.settings_frame([]) + wire.settings_frame(ack=True)}]
+        first = rng.choice([1, 1, 3])
+        if first == 3:
+            ops.append({'op': 'send_headers', 'c': 0, 'sid': 1, 'headers': REQ, 'es': True})
+        bad = rng.choice([
+            REQ + [(b'content-length', 42, False)], REQ + [(b'x', None, False)], REQ + [('x', 7, False)],
+            REQ[1:], REQ + [(b'Connection', b'close', False)], [(b':method', 'GET', False)] + REQ[1:],
+            REQ + [(b'te', b'gzip', False)], REQ + [(b':path', b'/twice', False)]])
+        ops.append({'op': 'send_headers', 'c': 0, 'sid': first, 'headers': bad, 'es': rng.random() < 0.5})
+        if rng.random() < 0.6:
+            ops.append({'op': 'send_headers', 'c': 0, 'sid': first + 2, 'headers': REQ, 'es': True})     # the retry
+        for _ in range(rng.randrange(1, 4)):
+            kind = rng.choice(['req', 'req', 'resp', 'data', 'push', 'rst', 'wu'])
+            d = {'req': wire.headers_frames(first, REQB, end_stream=rng.random() < 0.5),
+                 'resp': wire.headers_frames(first, RESP, end_stream=rng.random() < 0.5),
+                 'data': wire.data_frame(first, b'abc'), 'push': wire.push_promise_frames(first, 2, REQB),
+                 'rst': wire.rst_stream(first, 0), 'wu': wire.window_update(first, 5)}[kind]
+            ops.append({'op': 'recv', 'c': 0, 'data': d})
+        yield 'orphan-%d' % k, ops
+
+
+def special_C07(seed, tier, model, deadline):
+    """peer frames on ids that refused calls did not use (see _orphan_id_programs) under oracle_C07"""
+    from oracles import oracle_C07
+    return _run_directed('C07', oracle_C07, _orphan_id_programs, 'orphan_id')(seed, tier, model, deadline, 250)
